@@ -210,7 +210,7 @@ def run_unit(unit, rec):
             except Exception as e:  # noqa
                 _v(rec, "c", dict(sig, **exc_sig(e)), "fit raised %r" % (e,), case)
         # d: spaced solutions
-        if cls == "inside" and posdim:
+        if cls == "inside" and posdim and (tier != "quick" or idx % 3 == 0):
             nlist = (2, 3, 5, 10) if surplus == 1 else ((2, 3) if surplus == 2 else (2,))
             if idx % 2:
                 nlist = nlist[:2]
